@@ -441,6 +441,12 @@ def run_family_v(chk: Check, tier: str, keys) -> None:
                 chk.known_finding("D31", m)
                 stats["D31"] += 1
                 continue
+            # D44 (variants of the shapes the deep model instance generates): the finding's own trigger -- the source has the shape and the
+            # trees differ by list tightness tight -> loose only
+            if only_loosened and "D44" in chk.open_findings and _d44_any(m["src"]):
+                chk.known_finding("D44", m)
+                stats["D44"] = stats.get("D44", 0) + 1
+                continue
             chk.violation("SameDocument(marko)" if dm else "SameDocument(markdown-it)",
                           dict(m, first_diff_marko=dm, marko_in=a[max(0, dm - 2): dm + 2], marko_out=b[max(0, dm - 2): dm + 2]))
     chk.notes["family_S_plus"] = stats
